@@ -227,7 +227,9 @@ func genRrCase(r *Rand, nFields int, acPct int, hintPct int, nOps int, nScanners
 					case 0:
 						hs = append(hs, r.I64(-2000, 2000)) // probably unknown
 					case 1:
-						hs = append(hs, pick(r, []int64{1 << 60, -(1 << 60), 1 << 55}))
+						// out of range; the last three share their low 56 bits with an indexed document's id
+						d := ids[r.Intn(len(ids))]
+						hs = append(hs, pick(r, []int64{1 << 60, -(1 << 60), 1 << 55, d + 1<<56, d - 1<<56, d + 1<<57}))
 					default:
 						hs = append(hs, ids[r.Intn(len(ids))])
 					}
